@@ -28,6 +28,11 @@ def one_op(rng, victim=None, at=None, op=None):
         d["phase"] = rng.choice(PHASES)
     if op in ("reflect", "inject"):
         d["as"] = rng.choice(["peer", "peer", "fresh"])
+    if op == "reflect" and rng.random() < 0.35:
+        d["as"] = "own+suffix"
+        d["suffix"] = rng.choice(["\u00e9", "\u0661", " ", "\n", "\u200b", "\x00"])
+    if op == "relabel" and rng.random() < 0.35:
+        d["suffix"] = rng.choice(["\u00e9", "\u0661", " ", "\n", "\u200b", "\uff10"])
     if op == "reflect":
         d["which"] = rng.choice(["last", "first"])
         if rng.random() < 0.3:
